@@ -47,6 +47,8 @@ def gen_cases(rng, tier):
     groute = "api" if route.startswith("api") else "potable"
     kind = rng.choice(["eam", "fs"])
     model = spec.gen_eam_model(rng, kind, groute, target="DL_POLY_EAM" if kind == "eam" else "DL_POLY_EAM_fs")
+    if groute == "api":
+      model["api_containers"] = rng.choice([None, None, "tuple", "generator", "map"])
     huge = None
     if i % 8 == 3:
       huge = spec.make_huge(rng, model)
@@ -68,7 +70,7 @@ def produce(ctx, model, route, rng):
     return routes.write_tab(routes.eam_tab_api(model))
   if route == "api_legacy":
     import atsim.potentials as ap
-    pots, eams = routes.eam_api_objects(model)[:2]
+    pots, eams = routes.vary_containers(model, routes.eam_api_objects(model)[:2])
     nr, nrho = int(t["nr"]), int(t["nrho"])
     out = io.StringIO()
     fn = ap.writeTABEAMFinnisSinclair if model["type"] == "fs" else ap.writeTABEAM
@@ -84,6 +86,8 @@ def run_case(case, ctx):
   potable = not route.startswith("api")
   rng = random.Random(case["style"])
   ctx.cls("route:" + route)
+  if model.get("api_containers"):
+    ctx.cls("api_containers:" + model["api_containers"])
   if case.get("huge"):
     ctx.cls("huge_values_1e45_1e80:" + case["huge"])
   ctx.cls("target:" + model["target"])
